@@ -6,11 +6,11 @@ Import ListNotations.
 Local Open Scope Z_scope.
 
 (* n consecutive registers (modulo 32) of one view / arrangement, without lane *)
-Fixpoint veclist_P (n : nat) (rt et id : Z) (ops : list operand) : Prop :=
+Fixpoint veclist_P (n : nat) (rt et ei id : Z) (ops : list operand) : Prop :=
   match n with
   | O => True
   | S k => match ops with
-           | OVec rt' et' ei id' :: r => rt' = rt /\ et' = et /\ ei = -1 /\ id' = id /\ veclist_P k rt et ((id + 1) mod 32) r
+           | OVec rt' et' ei' id' :: r => rt' = rt /\ et' = et /\ ei' = ei /\ id' = id /\ veclist_P k rt et ei ((id + 1) mod 32) r
            | _ => False
            end
   end.
@@ -35,6 +35,7 @@ Definition valid1 (s : opsyn) (ops : list operand) : Prop :=
   | SGpDup x hi _ _, OGp x' id :: _ => x = x' /\ (0 <= id <= 30 \/ id = hi)
   | SImmLt _ _ lim, OImm _ v :: _ => 0 <= v < lim
   | SImmRsub _ _ _ lo hi, OImm _ v :: _ => lo <= v <= hi
+  | SImmAff _ w base step, OImm _ v :: _ => (v - base) mod step = 0 /\ 0 <= (v - base) / step < 2 ^ w
   | SFpImm _ _, OImm p v :: _ =>          (* a double Imm (or an int32 Imm) whose value is one of the 256 imm8 numbers *)
       (256 <= p \/ - 2 ^ 31 <= v < 2 ^ 31) /\ 0 <= fimm_bits p v < 2 ^ 64 /\ is_fp_imm8 9 6 48 (fimm_bits p v) = true /\
       0 <= encode_fp_imm8 9 6 48 (fimm_bits p v) < 256
@@ -68,7 +69,9 @@ Definition valid1 (s : opsyn) (ops : list operand) : Prop :=
       let width := if x then 64 else 32 in
       (if x then - 2 ^ 63 <= v < 2 ^ 64 else - 2 ^ 32 <= v < 2 ^ 32) /\
       exists n s r, 0 <= n < 2 /\ 0 <= s < 64 /\ 0 <= r < 64 /\ decode_bit_masks width n s r = Some (v mod 2 ^ width)   (* a bitmask immediate *)
-  | SVecList n rt et _, OVec _ _ _ id :: _ => 0 <= id < 32 /\ veclist_P n rt et id ops
+  | SVecList n rt et _, OVec _ _ _ id :: _ => 0 <= id < 32 /\ veclist_P n rt et (-1) id ops
+  | SVecListElem n et _ _ _ lanes, OVec _ _ ei id :: _ =>        (* n consecutive registers, all with the same lane inside the vector *)
+      0 <= id < 32 /\ 0 <= ei < lanes /\ veclist_P n 4 et ei id ops
   | SSysOp _ _ _ crn, OImm _ v :: _ => 0 <= v < 16384 /\ (v / 128) mod 16 = crn          (* a 14-bit op1:CRn:CRm:op2 id with the instruction's CRn *)
   | SGpPair x _, OGp x1 id1 :: OGp x2 id2 :: _ =>
       x = x1 /\ x = x2 /\ 0 <= id1 <= 30 /\ Z.even id1 = true /\ id2 = (if id1 =? 30 then 63 else id1 + 1)   (* even first register, consecutive partner *)
@@ -82,6 +85,7 @@ Definition consume (s : opsyn) (ops : list operand) : list operand :=
   | SBitfield kind _ _ _, _ :: r => if kind =? 2 then r else tl r
   | SExtReg _ _ _ _, _ => []
   | SVecList n _ _ _, _ => skipn n ops
+  | SVecListElem n _ _ _ _ _, _ => skipn n ops
   | SGpPair _ _, _ :: _ :: r => r
   | _, _ :: r => r
   | _, [] => []
@@ -164,15 +168,15 @@ Proof.
     congruence.
 Qed.
 
-Lemma veclist_iff : forall n rt et id ops,
-  ((exists r, veclist n rt et id ops = Some r) <-> veclist_P n rt et id ops) /\
-  (forall r, veclist n rt et id ops = Some r -> r = skipn n ops).
+Lemma veclist_iff : forall n rt et ei id ops,
+  ((exists r, veclist n rt et ei id ops = Some r) <-> veclist_P n rt et ei id ops) /\
+  (forall r, veclist n rt et ei id ops = Some r -> r = skipn n ops).
 Proof.
-  induction n as [|k IH]; intros rt et id ops; cbn [veclist veclist_P skipn].
+  induction n as [|k IH]; intros rt et ei id ops; cbn [veclist veclist_P skipn].
   - split; [split; [tauto | intros _; eexists; reflexivity] | intros r H; inversion H; reflexivity].
   - destruct ops as [|[] r0]; try (split; [split; [intros [r X]; discriminate | tauto] | discriminate]).
-    destruct ((rt0 =? rt) && (et0 =? et) && (ei =? -1) && (id0 =? id)) eqn:E.
-    + b2p. subst. destruct (IH rt et ((id + 1) mod 32) r0) as [I1 I2]. split; [|exact I2].
+    destruct ((rt0 =? rt) && (et0 =? et) && (ei0 =? ei) && (id0 =? id)) eqn:E.
+    + b2p. subst. destruct (IH rt et ei ((id + 1) mod 32) r0) as [I1 I2]. split; [|exact I2].
       split; [intros X; apply I1 in X; tauto | intros (_ & _ & _ & _ & X); apply I1; exact X].
     + split; [|discriminate]. split; [intros [r X]; discriminate|]. intros (A & B & C & D & _). subst.
       rewrite !Z.eqb_refl in E. discriminate.
@@ -296,17 +300,17 @@ Proof.
   - destruct ops as [|[] r]; try (apply F; reflexivity). apply G. rewrite !andb_true_iff, !Z.eqb_eq, fits_u_iff. tauto.
   - destruct ops as [|[] r]; try (apply F; reflexivity). apply G. rewrite !andb_true_iff, !Z.eqb_eq, Z.leb_le, Z.ltb_lt, fits_u_iff. tauto.
   - destruct ops as [|[] r]; try (apply F; reflexivity).
-    destruct (veclist_iff n rt et id (OVec rt0 et0 ei id :: r)) as [I1 I2].
+    destruct (veclist_iff n rt et (-1) id (OVec rt0 et0 ei id :: r)) as [I1 I2].
     apply none_from_some.
     + destruct (fits_u id 5) eqn:Ef.
       * apply fits_u_iff in Ef. change (2 ^ 5) with 32 in Ef.
-        destruct (veclist n rt et id (OVec rt0 et0 ei id :: r)) as [r1|] eqn:Ev.
+        destruct (veclist n rt et (-1) id (OVec rt0 et0 ei id :: r)) as [r1|] eqn:Ev.
         -- rewrite (I2 r1 eq_refl). split; [|intros _; eexists; reflexivity]. intros _. split; [exact Ef|]. apply I1. exists r1. reflexivity.
         -- split; [intros [e X]; discriminate|]. intros (_ & A). apply I1 in A. destruct A as [r1 A]. discriminate.
       * split; [intros [e X]; discriminate|]. intros (A & _). exfalso.
         assert (fits_u id 5 = true) by (apply fits_u_iff; change (2 ^ 5) with 32; exact A). congruence.
     + intros e r'' X. destruct (fits_u id 5); try discriminate.
-      destruct (veclist n rt et id (OVec rt0 et0 ei id :: r)) as [r1|] eqn:Ev; inversion X; subst. apply I2. reflexivity.
+      destruct (veclist n rt et (-1) id (OVec rt0 et0 ei id :: r)) as [r1|] eqn:Ev; inversion X; subst. apply I2. reflexivity.
   - destruct ops as [|[] r]; try (apply F; reflexivity). destruct idx as [[xi i]|]; try (apply F; reflexivity).
     apply G. rewrite !andb_true_iff, !Z.leb_le, !Z.eqb_eq. destruct xi; intuition congruence.
   - destruct ops as [|[] r]; try (apply F; reflexivity). destruct idx; try (apply F; reflexivity).
@@ -320,6 +324,22 @@ Proof.
   - destruct ops as [|[] r]; try (apply F; reflexivity). apply G. rewrite andb_true_iff, !Z.leb_le. tauto.
   - destruct ops as [|[] r]; try (apply F; reflexivity). cbv zeta. apply G.
     rewrite !andb_true_iff, orb_true_iff, !andb_true_iff, !Z.leb_le, !Z.ltb_lt. tauto.
+  - destruct ops as [|[] r]; try (apply F; reflexivity).
+    destruct (veclist_iff n 4 et ei id (OVec rt et0 ei id :: r)) as [I1 I2].
+    apply none_from_some.
+    + destruct (fits_u id 5 && (0 <=? ei) && (ei <? lanes)) eqn:Ef.
+      * apply andb_prop in Ef. destruct Ef as [Ef El]. apply andb_prop in Ef. destruct Ef as [Ef Eg].
+        apply fits_u_iff in Ef. change (2 ^ 5) with 32 in Ef. apply Z.leb_le in Eg. apply Z.ltb_lt in El.
+        destruct (veclist n 4 et ei id (OVec rt et0 ei id :: r)) as [r1|] eqn:Ev.
+        -- rewrite (I2 r1 eq_refl). split; [|intros _; eexists; reflexivity]. intros _. split; [exact Ef|]. split; [lia|]. apply I1. exists r1. reflexivity.
+        -- split; [intros [e X]; discriminate|]. intros (_ & _ & A). apply I1 in A. destruct A as [r1 A]. discriminate.
+      * split; [intros [e X]; discriminate|]. intros (A & B & _). exfalso.
+        assert (fits_u id 5 && (0 <=? ei) && (ei <? lanes) = true).
+        { apply andb_true_intro. split; [apply andb_true_intro; split; [apply fits_u_iff; change (2 ^ 5) with 32; exact A | apply Z.leb_le; lia] | apply Z.ltb_lt; lia]. }
+        congruence.
+    + intros e r'' X. destruct (fits_u id 5 && (0 <=? ei) && (ei <? lanes)); try discriminate.
+      destruct (veclist n 4 et ei id (OVec rt et0 ei id :: r)) as [r1|] eqn:Ev; inversion X; subst. apply I2. reflexivity.
+  - destruct ops as [|[] r]; try (apply F; reflexivity). apply G. rewrite andb_true_iff, Z.eqb_eq, fits_u_iff. tauto.
 Qed.
 
 Ltac rest_gen H :=
@@ -349,9 +369,12 @@ Proof.
   - (* SMovW *) destruct ((0 <=? v) && (v <=? 65535)); try discriminate.
     destruct r as [|[] r']; try (inversion H; reflexivity). rest_gen H.
   - (* SVecList *) destruct (fits_u id 5); try discriminate.
-    destruct (veclist n rt et id (OVec rt0 et0 ei id :: r)) as [r1|] eqn:Ev; inversion H; subst.
-    apply (proj2 (veclist_iff n rt et id _)). exact Ev.
+    destruct (veclist n rt et (-1) id (OVec rt0 et0 ei id :: r)) as [r1|] eqn:Ev; inversion H; subst.
+    apply (proj2 (veclist_iff n rt et (-1) id _)). exact Ev.
   - (* SGpPair *) destruct r as [|[] r']; try discriminate. rest_gen H.
+  - (* SVecListElem *) destruct (fits_u id 5 && (0 <=? ei) && (ei <? lanes)); try discriminate.
+    destruct (veclist n 4 et ei id (OVec rt et0 ei id :: r)) as [r1|] eqn:Ev; inversion H; subst.
+    apply (proj2 (veclist_iff n 4 et ei id _)). exact Ev.
 Qed.
 
 (* Refusal is exact (rows whose syntaxes are all in syn_inv): the specification of a row is defined exactly when the operand list
